@@ -211,10 +211,14 @@ def bag_case():
         ormgen.harness_dao()
         from krrood.ormatic.dao import to_dao
 
-        pool = [[M.Leaf, M.SubLeaf][ctx.choice("leafclass%d" % j, 2)](ctx.fresh_int("v%d" % j)) for j in range(2)]
-        items = [pool[j] for j in LEAF_SEQS[ctx.choice("items", len(LEAF_SEQS))]]
-        if ctx.flag("labeled"):
-            bag = M.LabeledBag(items, label=ctx.fresh_int("label"))
+        pool = [M.Leaf(ctx.fresh_int("v0")), M.SubLeaf(ctx.fresh_int("v1"))]
+        items = [pool[j] for j in LEAF_SEQS[ctx.choice("items", 5)]]
+        kind = ctx.choice("bagclass", 3)
+        if kind:
+            # the normally mapped subclasses (one and two levels below the alternatively mapped class) declare relationships of their own
+            sp = ctx.choice("spare", 3) - 1
+            kw = dict(label=ctx.fresh_int("label"), spare=pool[sp] if sp >= 0 else None, more=[pool[j] for j in LEAF_SEQS[ctx.choice("more", 3)]])
+            bag = M.LabeledBag(items, **kw) if kind == 1 else M.SealedBag(items, seal=ctx.fresh_int("seal"), **kw)
         else:
             bag = M.Bag(items)
         fav = ctx.choice("favourite", 3) - 1
@@ -238,6 +242,68 @@ def index_of_id(xs, o):
     return next((i for i, x in enumerate(xs) if x is o), -1)
 
 
+def drawing_case():
+    """an alternatively mapped SUBCLASS of a normally mapped class, reached through fields typed with the base class"""
+
+    def h(ctx):
+        ormgen.harness_dao()
+        from krrood.ormatic.dao import to_dao
+
+        pool = [M.Shape(ctx.fresh_int("sides0")), M.Circle(ctx.fresh_int("sides1"), ctx.fresh_int("radius1")), M.Circle(ctx.fresh_int("sides2"), ctx.fresh_int("radius2"))]
+        mi = ctx.choice("main", 4) - 1
+        seq = [[], [1], [0, 1], [1, 2, 1], [2, 0]][ctx.choice("shapes", 5)]
+        root = M.Drawing(ctx.fresh_int("number"), pool[mi] if mi >= 0 else None, [pool[j] for j in seq])
+        back = to_dao(root).from_dao()
+        ctx.observe(mi, seq)
+        ctx.note("nonempty", 1)
+        r, terms = isomorphic(root, back)
+        v = {"same-structure-classes-and-aliasing": r is True}
+        if r is True:
+            v["equal-field-values"] = AND(terms) if terms else True
+        else:
+            ctx.observe(str(r))
+        return v
+
+    return h
+
+
+def short_lived_case(max_n):
+    """objects that die while the conversion state lives: helper objects built on the fly by an alternative mapping, and
+    several short-lived roots converted one after the other with ONE state (CPython re-uses the addresses of dead objects)"""
+
+    def h(ctx):
+        ormgen.harness_dao()
+        from krrood.ormatic.dao import to_dao, ToDAOState
+
+        v = {}
+        k = range(3)[ctx.choice("strips", 3)]
+        lens = [range(3)[ctx.choice("len%d" % i, 3)] for i in range(k)]
+        c = 0
+        strips = []
+        for n in lens:
+            strips.append(M.Strip([10 * (c + j) for j in range(n)]))
+            c += n
+        back = to_dao(M.Album(7, strips)).from_dao()
+        v["helper-objects-of-an-alternative-mapping-come-back"] = [s.values for s in back.strips] == [s.values for s in strips] and back.number == 7
+        n = 1 + range(max_n)[ctx.choice("n", max_n)]
+        kinds = [ctx.choice("kind%d" % i, 3) for i in range(n)]
+        st = ToDAOState()
+        daos = []
+        for i, kd in enumerate(kinds):
+            daos.append(to_dao(M.Node(i, leaf=[None, M.Leaf(100 + i), M.SubLeaf(100 + i, i)][kd]), st))  # the object is a temporary
+        got = []
+        for d in daos:
+            o = d.from_dao()
+            got.append((o.tag, None if o.leaf is None else (type(o.leaf).__name__, o.leaf.v)))
+        exp = [(i, None if kd == 0 else (["", "Leaf", "SubLeaf"][kd], 100 + i)) for i, kd in enumerate(kinds)]
+        ctx.observe(lens, kinds, got)
+        ctx.note("nonempty", 1)
+        v["short-lived-objects-converted-with-one-state-keep-their-own-values"] = got == exp and len({id(d) for d in daos}) == n
+        return v
+
+    return h
+
+
 def cases(tier, seed):
     ormgen.harness_dao()  # generated once here (parent process) from the current tree; workers inherit it
     n = 2 if tier == "quick" else 3
@@ -255,7 +321,9 @@ def cases(tier, seed):
                                max_paths=200000 if tier == "quick" else 3000000))
     cs.append(Case("rich scalars", rich_case(), validate=2, timeout=600))
     cs.append(Case("two roots, one conversion state", two_roots_case(), validate=2))
-    cs.append(Case("alternatively mapped container and its normally mapped subclass", bag_case(), key="bag", validate=2, timeout=900))
+    cs.append(Case("alternatively mapped container and its normally mapped subclasses", bag_case(), key="bag", validate=2, timeout=900))
+    cs.append(Case("alternatively mapped subclass of a normally mapped class behind base-typed fields", drawing_case(), key="drawing", validate=2, timeout=900))
+    cs.append(Case("objects that die while the conversion state lives", short_lived_case(3 if tier == "quick" else 4), key="short-lived", validate=0, timeout=900))
     return cs
 
 
@@ -266,7 +334,7 @@ def describe(tier):
         "link incl. self references and cycles, a single-valued reference and an ordered collection (with repeated elements) into a pool of two shared targets "
         "(Leaf / SubLeaf / SubSubLeaf instances, or alternatively mapped Vec objects); a class with scalars of every supported kind; two roots converted with one "
         "shared state; an alternatively mapped container (relationship exposed under another name than the constructor argument) / a normally mapped subclass of it "
-        "whose elements are also referenced from its holder. Shape = bounded symbolic choices, scalar fields = unbounded z3 integers; oracle = bisimulation with identity classes (same classes, sharing, "
+        "(one and two levels below, with relationships of their own) whose elements are also referenced from its holder; an alternatively mapped subclass of a normally mapped class behind base-typed fields; helper objects built on the fly by an alternative mapping and short-lived roots converted with one state. Shape = bounded symbolic choices, scalar fields = unbounded z3 integers; oracle = bisimulation with identity classes (same classes, sharing, "
         "order, None positions) + equality of all scalar fields decided by the solver. non-trivial = every path converts a graph" % n,
         bounds=dict(nodes=n, pool=2, collection_length="<= %d" % (2 if tier == "quick" else 3), scalars="unbounded integers; enum/datetime/str/float/bool/list-of-str from small pools"),
         outside=["graphs with more than %d nodes" % n, "custom TypeDecorator columns", "self-referential collections (the generator rejects them, see C06)"],
